@@ -120,7 +120,8 @@ int aws_xml_parse(struct aws_allocator *allocator, const struct aws_xml_parser_o
             goto clean_up;
         }
 
-        const uint8_t *location = memchr(parser.doc.ptr, '>', parser.doc.len);
+        /* the matching '>' has to come after the '<' that was just found */
+        const uint8_t *location = memchr(start, '>', parser.doc.len - (size_t)(start - parser.doc.ptr));
         if (!location) {
             AWS_LOGF_ERROR(AWS_LS_COMMON_XML_PARSER, "XML document is invalid.");
             parser.error = aws_raise_error(AWS_ERROR_INVALID_XML);
@@ -286,7 +287,9 @@ int aws_xml_node_traverse(
             goto error;
         }
 
-        const uint8_t *end_location = memchr(parser->doc.ptr, '>', parser->doc.len);
+        /* the matching '>' has to come after the '<' that was just found */
+        const uint8_t *end_location =
+            memchr(next_location, '>', parser->doc.len - (size_t)(next_location - parser->doc.ptr));
 
         if (!end_location) {
             AWS_LOGF_ERROR(AWS_LS_COMMON_XML_PARSER, "XML document is invalid.");
